@@ -192,8 +192,15 @@ class DeletionOracle(history.Oracle):
         if rs.formula is None:
             return True
         if h.get("rbase") is not None and h["rbase"].deleted:
-            # built from a space that has been deleted since: derived from a deleted object
-            return True
+            # built from a space that has been deleted since: derived from a deleted object - for as long as the parameter
+            # formula still names that space (under another formula the instance may be built anew, and modelx hands the
+            # interface object of a discarded instance to its successor: then the handle is the current object)
+            ret = (rs.formula or {}).get("ret") or {}
+            if ret.get("base") is not None and mach_space(self, ret["base"]) is h["rbase"]:
+                return True
+            if ret.get("base") is not None and mach_space(self, ret["base"]) is None:
+                return True
+            return None
         if k == "dyncells" and h["name"] not in gen.visible_cells(rs):
             return True
         if k == "itemchild" and h["child"] not in rs.spaces:
@@ -286,6 +293,10 @@ class DeletionOracle(history.Oracle):
                         raise Violation("C13/bases-mention-deleted/after=%s" % op["op"], {"space": objpath(ch)})
                 walk(ch)
         walk(m)
+
+
+def mach_space(oracle, path):
+    return oracle.mach.ref.space(path)
 
 
 def strip(op):
